@@ -366,6 +366,42 @@ func GenTypes(t *rapid.T, o *Opts) *Spec {
 		}
 	}
 
+	if o.Unions == 2 && rapid.Bool().Draw(t, "reachThrough") {
+		// a struct holding a union that lives outside the analysed file and is only reached as an
+		// element of a container (anonymous or named), a member of another union, or a nested field
+		var us []*tinfo
+		for _, ti := range g.types {
+			if ti.cat == "union" && ti.pkg == root && len(g.spec.Unions()[root.Path][ti.d.Name].Members) > 0 {
+				us = append(us, ti)
+			}
+		}
+		if len(us) > 0 {
+			u := us[rapid.IntRange(0, len(us)-1).Draw(t, "rtUnion")]
+			other := root.Files[1]
+			e := &Decl{Kind: KStruct, Name: g.freshName(root, "rtElem", true), Fields: []*Field{
+				{Name: "Inner", Type: g.refTo(root, u), Tag: g.drawTag("Inner", "rtTag")}, {Name: "Num", Type: Basic("int")}}}
+			eti := g.newDecl(root, other, e, &tinfo{cat: "struct", hasUnion: true})
+			ref := g.refTo(root, eti)
+			var ft *TypeRef
+			switch rapid.IntRange(0, 4).Draw(t, "rtShape") {
+			case 0:
+				ft = Slice(ref)
+			case 1:
+				ft = Map(Basic("string"), ref)
+			case 2:
+				ft = Array(2, ref)
+			case 3:
+				nd := &Decl{Kind: KNamed, Name: g.freshName(root, "rtNamed", true), Type: Slice(ref)}
+				g.newDecl(root, root.Files[rapid.IntRange(0, 1).Draw(t, "rtNamedFile")], nd, &tinfo{cat: "slice", hasUnion: true})
+				ft = Ref(root.Path, nd.Name)
+			default:
+				ft = ref
+			}
+			h := &Decl{Kind: KStruct, Name: g.freshName(root, "rtHolder", true), Fields: []*Field{{Name: "Items", Type: ft}, {Name: "Label", Type: Basic("string")}}}
+			g.newDecl(root, root.Files[0], h, &tinfo{cat: "struct", hasUnion: true})
+			o.class("feature:union_holder_reached_through_container")
+		}
+	}
 	if o.Recursion && rapid.IntRange(0, 3).Draw(t, "recursion") == 0 {
 		g.addRecursion(root)
 	}
@@ -416,7 +452,11 @@ func (g *gen) fillPackage(pkg *Pkg, file, other *File, n int, isRoot bool) {
 			x -= c.w
 		}
 		target := file
-		if isRoot && rapid.IntRange(0, 9).Draw(t, "inOther") == 0 {
+		ow := o.OtherFile
+		if ow == 0 {
+			ow = 1
+		}
+		if isRoot && rapid.IntRange(0, 9).Draw(t, "inOther") < ow {
 			target = other
 		}
 		switch pick {
